@@ -133,7 +133,7 @@ def floors(tier):
     q = tier == "quick"
     f = {"crash_points.fresh": 5000 if q else 60000, "crash_points.sequence": 3000 if q else 20000, "raised_inside_library": 8000, "fault.silent_invocation": 300,
          "fault.in_container": 300, "fault.in_skiptoken": 100, "reset_rules.paths": 2000, "hammer.sequences": 100, "reset_rules.nested": 500, "reset_rules.entry_with_empty_chain": 500, "reset_rules.exception_propagated": 1000, "post_state_compared": 8000,
-         "post_fault_reconfigurations": 8000, "post_fault_reconfigurations.effective": 4000}
+         "post_fault_reconfigurations": 8000, "same_document_reparsed": 8000, "reset_rules.deferred_entry": 300, "crash_points.big_document": 30, "post_fault_reconfigurations.effective": 4000}
     for c in CALLBACKS:
         f["cb." + c] = 50
     for e in EXC:
@@ -217,6 +217,29 @@ def twin_of(conf):
     return _twins[conf]
 
 
+def _call_result(md, api, doc):
+    env = {}
+    try:
+        r = getattr(md, api)(doc, env)
+    except BaseException as e:  # noqa: BLE001
+        return f"EXC {type(e).__name__}: {e}"
+    if not isinstance(r, str):
+        r = [t.as_dict() for t in r]
+    return (r, env)
+
+
+_same_twins = {}
+
+
+def _same_doc_twin(conf, api, doc):
+    k = (conf, api, doc)
+    if k not in _same_twins:
+        if len(_same_twins) > 200:
+            _same_twins.clear()
+        _same_twins[k] = _call_result(build(conf)[0], api, doc)
+    return _same_twins[k]
+
+
 def dry_counts(conf, api, doc):
     md, ctl = build(conf)
     getattr(md, api)(doc)
@@ -268,6 +291,14 @@ def crash(ctx, md, ctl, conf, api, doc, cb, i, exc, record=True):
     if got != want_probe:
         j = next(k for k in range(len(got)) if got[k] != want_probe[k])
         errs.append(("post-parse-differs", f"after {exc} at {cb}#{i} in {api}: probe {PROBES[j]!r} gives {str(got[j])[:200]!r}, twin {str(want_probe[j])[:200]!r}"))
+    if not errs:
+        # the very document of the failed call, parsed again without a fault (anything remembered per source text shows here)
+        want_same = _same_doc_twin(conf, api, doc)
+        got_same = _call_result(md, api, doc)
+        if record:
+            ctx.count("same_document_reparsed")
+        if got_same != want_same:
+            errs.append(("post-parse-differs:same-document", f"after {exc} at {cb}#{i} in {api}: the same document parsed again gives {str(got_same)[:300]!r}, twin {str(want_same)[:300]!r}"))
     if not errs:
         for key, msg in reconfigure_and_compare(ctx, md, ctl, conf, record):
             errs.append((key, f"{msg} | failed call: {exc} at {cb}#{i} in {api}"))
@@ -352,6 +383,25 @@ def reset_case(ctx, case):
                         problems.append(f"depth {depth + 1}: rules after the block {diffrules(after, before)} differ from those on entry (exit by {act[2] if len(act) > 2 else 'see script'})")
                 if r == "return":
                     return "return"
+            elif k == "withd":
+                # the context manager object is created first, rules are switched, and only then is the block entered:
+                # "the rules in force on entry" are those at __enter__, not those at the reset_rules() call
+                guard = md.reset_rules()
+                for name_list, on in act[1]:
+                    (md.enable if on else md.disable)(name_list, True)
+                before = md.get_active_rules()
+                ctx.count("reset_rules.deferred_entry")
+                r = None
+                try:
+                    with guard:
+                        r = body(act[2], depth + 1)
+                finally:
+                    ctx.count("reset_rules.paths")
+                    after = md.get_active_rules()
+                    if after != before:
+                        problems.append(f"depth {depth + 1}: rules after a block entered later than it was created {diffrules(after, before)} differ from those on entry")
+                if r == "return":
+                    return "return"
             elif k == "loopbreak":
                 before_loop = md.get_active_rules()
                 for _ in range(2):
@@ -398,6 +448,8 @@ def flatten(script):
         yield a
         if a[0] == "with":
             yield from flatten(a[1])
+        if a[0] == "withd":
+            yield from flatten(a[2])
 
 
 def diffrules(a, b):
@@ -417,8 +469,10 @@ def gen_script(rng, depth=0):
             acts.append(["add"])
         elif r < 0.6:
             acts.append(["parse"])
-        elif r < 0.8 and depth < 3:
+        elif r < 0.74 and depth < 3:
             acts.append(["with", gen_script(rng, depth + 1)])
+        elif r < 0.8 and depth < 3:
+            acts.append(["withd", [[rng.sample(names, rng.randint(1, 2)), rng.random() < 0.4] for _ in range(rng.randint(1, 2))], gen_script(rng, depth + 1)])
         elif r < 0.85:
             acts.append(["loopbreak"])
     end = rng.random()
@@ -484,6 +538,16 @@ def run(ctx):
                     i = rng.randint(1, counts[cb])
                     ctx.count("hammer.sequences")
                     crash_case(ctx, {"conf": conf, "api": api, "doc": doc, "points": [[cb, i, "ValueError"]] * 110})
+    # a document beyond the size thresholds small tests never reach (16 KiB+), with containers; crash points spread over all callbacks
+    big = "".join(f"> quote {k} *e* [l](u{k})\n> - item `c{k}`\n>   more\n\n- a{k}\n  > q{k}\n\n{k}. x\n\npara {k} ![i](s) <http://a.b/{k}>\n\n" for k in range(260))
+    counts = dry_counts("cmx", "render", big)
+    bpoints = [(cb, i) for cb, n in sorted(counts.items()) for i in sorted({1, 2, n // 3, n // 2, n - 1, n} - {0})]
+    for pi, (cb, i) in enumerate(bpoints):
+        idx += 1
+        if not ctx.mine(idx) or (ctx.quick and pi % 2 and cb.startswith(("rr_", "hl"))):
+            continue
+        ctx.count("crash_points.big_document")
+        crash_case(ctx, {"conf": "cmx", "api": "render", "doc": big, "points": [[cb, i, "ValueError"]]})
     ctx.info["exhaustive_part"] = "thorough: every (callback, invocation index, exception type) of every sampled (document, conf, api); quick: all invocations for calls with <=150 invocations, stride otherwise, one exception type per point"
     for k in range(ctx.scale(12000, 300000)):
         script = gen_script(rng)
